@@ -46,6 +46,15 @@ def sys_tie(profile='general', n_quick=250, n_thorough=4000, corpus=None, name=N
                shard=60, timeout=60)
 
 
+def scenario_tie(name, fn, n_quick, n_thorough):
+    """whole-program correspondence on a targeted scenario generator (harness/scenarios.py)"""
+    from .scenarios import scenario_gen
+    return Tie(name=name, imports=['Base', 'Program'], run_def='run_prog', eqb='obs_prog_eqb',
+               gen=scenario_gen(fn, n_quick, n_thorough), impl=sysgen.impl_assemble, case_term=sysgen.case_term,
+               obs_term=sysgen.obs_term, nontrivial=nontrivial, classify=lambda c: c.get('fault') or 'scenario',
+               shard=60, timeout=60)
+
+
 def cli_gen(profile, n_quick, n_thorough):
     def gen(rng, tier):
         n = n_quick if tier == 'quick' else n_thorough
